@@ -331,6 +331,7 @@ def witness? : String → Option Program
   | "pMethods" => some RsslVerif.Lemmas.NamesEmitWitness.pMethods
   | "pMemberMethod" => some RsslVerif.Lemmas.NamesEmitWitness.pMemberMethod
   | "pGood" => some RsslVerif.Lemmas.NamesEmitWitness.pGood
+  | "pWave" => some RsslVerif.Lemmas.NamesEmitWitness.pWave
   | _ => none
 
 end Res
